@@ -115,7 +115,7 @@ func writeWorker(args []string) {
 		go func(w int) {
 			defer wg.Done()
 			for k := from[w] + 1; k <= from[w]+sp.Batches; k++ {
-				mb := corpus.WriterBatch(sp.Seed, w, k, sp.NIDs)
+				mb := corpus.WriterBatchOpt(sp.Seed, w, k, sp.NIDs, true)
 				bb, err := corpus.ToBleve(idx, mb)
 				if err != nil {
 					j.line("E %d %d %q", w, k, err.Error())
@@ -268,7 +268,7 @@ func dumpWorker(args []string) {
 	if st.Err == "" && sp.More > 0 {
 		k0 := st.Seqs[0]
 		for k := k0 + 1; k <= k0+sp.More; k++ {
-			if err := corpus.ApplyBatch(idx, corpus.WriterBatch(sp.Seed, 0, k, sp.NIDs)); err != nil {
+			if err := corpus.ApplyBatch(idx, corpus.WriterBatchOpt(sp.Seed, 0, k, sp.NIDs, true)); err != nil {
 				out.States = append(out.States, State{Label: "more", Err: fmt.Sprintf("batch %d after recovery: %v", k, err)})
 				_ = idx.Close()
 				return
